@@ -556,6 +556,16 @@ def catalogue():
     add("score+score", ["score", "score"], lambda a, r: a[0] + a[1])
     add("score*k", ["score"], lambda a, r: a[0] * 2)
     add("Score(list)", ["chord", "chord"], lambda a, r: Score([a[0], a[1]]))
+    def from_pattern(a, r):
+        # the class-method constructors that take notes as text ('s0' evaluates to the library symbol itself)
+        import musiclang.library as lib
+        grid = r.choice([[[1, 0, 1, 0]], [[1, 0, 0, 1], [0, 1, 0, 0]], [[0, 1, 1, 0]]])
+        pat = [{"instrument": "piano", "part": 0, "note": "lowest_note", "pattern": None,
+                "rhythm": {"rhythm": grid, "tatum": (1, r.choice([2, 4])), "notes": ["s0", "s2"][:len(grid)], "mode": r.choice(["legato", "staccato"]),
+                           "amp": "mf", "octave": 0}}]
+        return Score.from_pattern(pat, [(lib.I % lib.I.M).w, a[0].set_duration(Fr(4))], use_pattern=False)
+    add("Score.from_pattern(rhythm grid)", ["chord"], from_pattern)
+    add("Score.from_str", ["score"], lambda a, r: Score.from_str(str(a[0])))
     add("score[i]", ["score"], lambda a, r: a[0][0])
     add("score[i:j]", ["score"], lambda a, r: a[0][0:1])
     add("score.chords", ["score"], lambda a, r: list(a[0].chords))
